@@ -642,7 +642,8 @@ func c03NoBlockAbove(db *tsdb.DB, t int64) bool {
 func c03Report(prefix, sig, msg string, c any) {
 	switch {
 	case strings.HasSuffix(sig, "wbl-skipped-after-wal-repair"), strings.HasSuffix(sig, "repair-file-left:acked-sample-lost"),
-		strings.HasSuffix(sig, "deleted-sample-replayed-from-wal"), strings.HasSuffix(sig, "failed-open-changed-undamaged-data:cp"):
+		strings.HasSuffix(sig, "deleted-sample-replayed-from-wal"), strings.HasSuffix(sig, "failed-open-changed-undamaged-data:cp"),
+		sig == "hc:snapshot:acked-sample-lost":
 		verifh.Deviation(prefix+sig, msg, c)
 	default:
 		verifh.Violation(prefix+sig, msg, c)
